@@ -165,6 +165,10 @@ class HTMLParser(object):
 
         self.framesetOK = True
 
+        # Set by the <pre>, <listing> and <textarea> start tags: if the very
+        # next token is a newline, it is ignored
+        self.dropNextNewline = False
+
     @property
     def documentEncoding(self):
         """Name of the character encoding that was used to decode the input stream, or
@@ -215,6 +219,15 @@ class HTMLParser(object):
                     self.parseError(new_token["data"], new_token.get("datavars", {}))
                     new_token = None
                 else:
+                    if self.dropNextNewline:
+                        self.dropNextNewline = False
+                        if (type in (CharactersToken, SpaceCharactersToken) and
+                                new_token["data"].startswith("\n")):
+                            new_token["data"] = new_token["data"][1:]
+                            if not new_token["data"]:
+                                new_token = None
+                                continue
+
                     if (len(self.tree.openElements) == 0 or
                         currentNodeNamespace == self.tree.defaultNamespace or
                         (self.isMathMLTextIntegrationPoint(currentNode) and
@@ -976,19 +989,6 @@ class InBodyPhase(Phase):
                 break
         # Stop parsing
 
-    def processSpaceCharactersDropNewline(self, token):
-        # Sometimes (start of <pre>, <listing>, and <textarea> blocks) we
-        # want to drop leading newlines
-        data = token["data"]
-        self.processSpaceCharacters = self.processSpaceCharactersNonPre
-        if (data.startswith("\n") and
-            self.tree.openElements[-1].name in ("pre", "listing", "textarea") and
-                not self.tree.openElements[-1].hasContent()):
-            data = data[1:]
-        if data:
-            self.tree.reconstructActiveFormattingElements()
-            self.tree.insertText(data)
-
     def processCharacters(self, token):
         if token["data"] == "\u0000":
             # The tokenizer should always emit null on its own
@@ -1043,7 +1043,7 @@ class InBodyPhase(Phase):
             self.endTagP(impliedTagToken("p"))
         self.tree.insertElement(token)
         self.parser.framesetOK = False
-        self.processSpaceCharacters = self.processSpaceCharactersDropNewline
+        self.parser.dropNextNewline = True
 
     def startTagForm(self, token):
         if self.tree.formPointer:
@@ -1219,7 +1219,7 @@ class InBodyPhase(Phase):
     def startTagTextarea(self, token):
         self.tree.insertElement(token)
         self.parser.tokenizer.state = self.parser.tokenizer.rcdataState
-        self.processSpaceCharacters = self.processSpaceCharactersDropNewline
+        self.parser.dropNextNewline = True
         self.parser.framesetOK = False
 
     def startTagIFrame(self, token):
@@ -1338,9 +1338,6 @@ class InBodyPhase(Phase):
             return token
 
     def endTagBlock(self, token):
-        # Put us back in the right whitespace handling mode
-        if token["name"] == "pre":
-            self.processSpaceCharacters = self.processSpaceCharactersNonPre
         inScope = self.tree.elementInScope(token["name"])
         if inScope:
             self.tree.generateImpliedEndTags()
